@@ -67,6 +67,17 @@ fn tables(run: &Arc<Run>) -> Vec<Table> {
         steps[i] = 1 + 1000 * (i as u32 / 32);
         rev[i] = file[255 - i];
     }
+    // monotone vectors well above the EOF symbol's weight: the EOF symbol becomes the
+    // deepest leaf and its code word is all zeros / sits at the other end of the tree, so
+    // the implicit zero padding after the input decodes to EOF or to a data symbol
+    let mut up = [0u32; 256];
+    let mut down = [0u32; 256];
+    for i in 0..256 {
+        up[i] = 1000 + i as u32;
+        down[i] = 5000 - i as u32;
+    }
+    vecs.push(("offset-ramp-up".into(), up));
+    vecs.push(("offset-ramp-down".into(), down));
     vecs.push(("ramp".into(), ramp));
     vecs.push(("squares".into(), squares));
     vecs.push(("zipf".into(), zipf));
@@ -93,6 +104,11 @@ fn tables(run: &Arc<Run>) -> Vec<Table> {
         match vp_core::catch(|| Huffman::from_frequencies_array(&f)) {
             Ok(h) => {
                 run.class(&format!("table-built:{}", name), || json!({"frequencies_head": f[..8].to_vec()}));
+                // shape of the table at the point where input ends: what the endless zero
+                // padding decodes to (EOF = empty input is a valid stream)
+                let mut e: Vec<u8> = Vec::with_capacity(16);
+                let eof_zero = h.compress(&[], &mut e).map(|c| c.iter().all(|&b| b == 0)).unwrap_or(false);
+                run.class(&format!("table-shape:eof-code-all-zero={}", eof_zero), || json!({"table": name.clone()}));
                 out.push(Table {
                     name,
                     h,
@@ -377,7 +393,7 @@ fn main() {
     run.assume("frequency vectors whose code depth exceeds the 24-bit representation make the table constructor refuse (panic); they are counted as 'table-rejected' and skipped - table construction limits are not part of the statement");
     run.assume("content classes: zeros, 'abc' repeated, byte counter, fixed LCG stream (a named constant member of the alphabet)");
     run.finish(
-        "per code table (built-in, shipped frequency file, 13 synthetic frequency vectors): all compressor inputs of length <=2, every length 0..4096 x 4 content classes, every byte value repeated 1..64; all decompressor inputs of length <=2 (<=3 thorough) x every output capacity 0..8n+2 between canaries, every prefix / one-byte extension / byte substitution of valid streams; oracle: round trip for both output forms, exact predicted lengths, byte identity with the C++ reference, equality with the reference whenever it decodes, capacity errors exactly when the output does not fit, no write past the buffer, termination (watchdog)",
+        "per code table (built-in, shipped frequency file, 23 synthetic frequency vectors incl. two whose EOF code word is all zeros, so that input ending between two symbols decodes to EOF): all compressor inputs of length <=2, every length 0..4096 x 4 content classes, every byte value repeated 1..64; all decompressor inputs of length <=2 (<=3 thorough) x every output capacity 0..8n+2 between canaries, every prefix / one-byte extension / byte substitution of valid streams; oracle: round trip for both output forms, exact predicted lengths, byte identity with the C++ reference, equality with the reference whenever it decodes, capacity errors exactly when the output does not fit, no write past the buffer, termination (watchdog)",
         true,
     );
 }
